@@ -1042,6 +1042,24 @@ Section CKernel.
         end
     end.
 
+  (* set_correlation_real(x1, x2, r, assign=False): the same checks -- and the repr() effects of its
+     TypeError message -- but nothing is assigned *)
+  Definition scr_check (k : state) (r : V) (ia ib : nat) : state * option exn :=
+    match scr k r ia ib with
+    | (_, None) => (k, None)
+    | (k1, Some e) => (k1, Some e)
+    end.
+
+  Fixpoint scr_check_list (k : state) (l : list (V * nat * nat)) : state * option exn :=
+    match l with
+    | [] => (k, None)
+    | (r, ia, ib) :: l' =>
+        match scr_check k r ia ib with
+        | (k1, None) => scr_check_list k1 l'
+        | (k1, Some e) => (k1, Some e)
+        end
+    end.
+
   Definition rform_is_zero (r : rform V) : bool :=
     match r with RScalar v => eqb N v f0 | RSeq _ => false end.
 
@@ -1077,6 +1095,10 @@ Section CKernel.
                       if eqb N r0 f0 && eqb N r1 f0 && eqb N r2 f0 && eqb N r3 f0 then (kpush s SErr, OutUnit)
                       else
                         let four := [(r0, jr, kr); (r1, jr, ki); (r2, ji, kr); (r3, ji, ki)] in
+                        (* all four pairs are checked (assign=False) before any coefficient is assigned *)
+                        match scr_check_list (ks s) four with
+                        | (k1, Some e) => cfail1 (with_ks s k1) e
+                        | (_, None) =>
                         match node_df N (ks s) ore with
                         | Err e => cfail1 s e
                         | Ok d1 =>
@@ -1102,6 +1124,7 @@ Section CKernel.
                                 | _, _ => cfail1 s AttributeError
                                 end
                             end
+                        end
                         end
                   | _ => cfail1 s TypeError
                   end
